@@ -253,7 +253,7 @@ async fn quiesce(peer: &mut Peer, st: &mut St, net: &crate::net::NetHandle) -> b
     }
 }
 
-fn spawn_app(mut r: Receiver, log: Rc<RefCell<AppLog>>, mode: Mode, dispose_kind: u32, batch: usize, manual_credits: Vec<u32>, drain_after: Option<usize>) {
+fn spawn_app(mut r: Receiver, log: Rc<RefCell<AppLog>>, mode: Mode, dispose_kind: u32, batch: usize, manual_credits: Vec<u32>, drain_after: Option<usize>, net: crate::net::NetHandle) {
     sim::spawn("app-receiver", async move {
         let mut pending = Vec::new();
         let mut manual_idx = 0usize;
@@ -301,8 +301,12 @@ fn spawn_app(mut r: Receiver, log: Rc<RefCell<AppLog>>, mode: Mode, dispose_kind
                         if Some(n) == drain_after {
                             log.borrow_mut().drains += 1;
                             let _ = r.drain().await;
-                            // after the sender has answered the drain, issue fresh credit
+                            // after the sender has answered the drain and everything it had sent under the
+                            // old credit has arrived (simulator-proven: nothing in flight, nothing runnable),
+                            // issue fresh credit - a smaller credit while transfers are in flight would turn
+                            // them into overruns by the application's own doing
                             sim::sleep_ms(50).await;
+                            world::quiesce_pair(&net).await;
                             since_credit = cur_credit;
                         }
                         if since_credit >= cur_credit && manual_idx < manual_credits.len() {
@@ -604,7 +608,7 @@ pub async fn run_client() {
         None => return,
     };
     let log = Rc::new(RefCell::new(AppLog::default()));
-    spawn_app(receiver, log.clone(), mode, dispose_kind, batch, manual_credits.clone(), drain_after);
+    spawn_app(receiver, log.clone(), mode, dispose_kind, batch, manual_credits.clone(), drain_after, net.clone());
     let max_credit = match &credit_mode {
         CreditMode::Auto(n) => *n,
         CreditMode::Manual => *manual_credits.iter().max().unwrap(),
@@ -669,6 +673,7 @@ pub async fn run_listener() {
     let ready2 = ready.clone();
     let cm = credit_mode.clone();
     let mc = manual_credits.clone();
+    let net2 = net.clone();
     sim::spawn(
         "listener-app",
         sim::in_group(2, async move {
@@ -688,7 +693,7 @@ pub async fn run_listener() {
                         let _ = r.set_credit(n).await;
                     }
                     ready2.put(Ok(()));
-                    spawn_app(r, log2, mode, dispose_kind, batch, mc, drain_after);
+                    spawn_app(r, log2, mode, dispose_kind, batch, mc, drain_after, net2.clone());
                 }
                 Ok(_) => ready2.put(Err("expected a receiver endpoint".into())),
                 Err(e) => ready2.put(Err(format!("link accept: {:?}", e))),
